@@ -1,6 +1,7 @@
 import TF.Proofs.PolyMul
 import TF.Proofs.PolySpecNtt
 import TF.Proofs.PolyNttBridge
+import TF.Proofs.PolyNttBridgeX
 /-!
 # C07 — every polynomial multiplication strategy returns the exact ring product
 
@@ -424,5 +425,129 @@ example : nextPowerOfTwo (2 * ((Model.Poly.normalize TF.bfieldOps [1, 1, 0]).len
   decide +kernel
 
 end BField
+
+/-! ### the extension field, unconditionally
+
+`ntt::<XFieldElement>` multiplies by base-field twiddles (`FF: MulAssign<BFieldElement>`); `algOps L` are these
+operations for a field extension `L` of `ZMod P`.  `XK = (ZMod P)[X]/(X³ − X + 1)` is the field of `XFieldElement`
+(irreducibility: C01's `shah_irreducible`); `xc (c0, c1, c2) = c0 + c1·θ + c2·θ²`; `xfieldOps` is the arithmetic on
+triples of naturals of `TF/Spec/Field.lean`, `xNtt = nttTransform xOps primitiveRoot` the transform the driver runs
+(`TX`).  `xdenote a` is the polynomial over `XK` a list of triples stands for; `CanonL3 a`: all coordinates `< P`. -/
+section XField
+open TF.Gen TF.NttProofs TF.Model.Poly.Hom TF.Spec
+
+/-- the polynomial over `XK` a list of triples stands for -/
+noncomputable def xdenote (a : List X3) : XK[X] := denote (a.map xc)
+
+/-- all entries canonical triples -/
+def CanonL3 (a : List X3) : Prop := ∀ x ∈ a, Canon3 x
+
+theorem xdenote_eq (r : List X3) : xdenote r = denote (r.map xc) := rfl
+
+/-- **the model of the Rust NTT with base-field twiddles is an evaluation / interpolation pair over every field
+    extension `L` of the base field**, at the images of the powers of the tabulated roots -/
+theorem ntt_model_transform_spec_extension (L : Type) [Field L] [Algebra (ZMod P) L] :
+    TransformSpec (nttTransform (algOps L) zRoot) (rootPts (algRoot L)) := algNtt_spec L
+example : TransformSpec xkNtt (rootPts (algRoot XK)) := ntt_model_transform_spec_extension XK
+
+/-- the records the driver runs for `x` correspond to the field `XK` under `xc`: arithmetic on triples is the field
+    arithmetic (zero test on canonical triples), the transform on triples is the model NTT over `XK` -/
+theorem xfield_corresponds : OpsMap TF.xfieldOps FX xc Canon3 ∧ TransMap xNtt xkNtt xc Canon3 :=
+  ⟨xfield_opsMap, xNtt_transMap⟩
+example : xc (0, 1, 0) ^ 3 - xc (0, 1, 0) + 1 = 0 := by
+  have : xc (0, 1, 0) = θ := by simp [xc]
+  rw [this]; exact θ_rel
+
+/-- `fast_multiply` over `XFieldElement` -/
+theorem fast_multiply_xfield_spec (a b r : List X3) (ha : CanonL3 a) (hb : CanonL3 b)
+    (h : fastMultiply TF.xfieldOps xNtt a b = some r) : xdenote r = xdenote a * xdenote b ∧ CanonL3 r := by
+  have hm := fastMultiply_map xfield_opsMap xNtt_transMap a b ha hb
+  rw [h] at hm
+  exact ⟨fast_multiply_spec (algRoot XK) xkNtt_spec _ _ _ hm.symm, fastMultiply_ok xNtt_transMap a b r h⟩
+example : fastMultiply TF.xfieldOps xNtt [(1,0,0),(0,1,0)] [(0,0,1),(1,0,0)] = some [(0,0,1),(0,1,0),(0,1,0)] := by
+  decide +kernel
+
+/-- `multiply` over `XFieldElement`, every threshold -/
+theorem multiply_xfield_spec (threshold : Int) (a b r : List X3) (ha : CanonL3 a) (hb : CanonL3 b)
+    (h : multiply TF.xfieldOps threshold xNtt a b = some r) : xdenote r = xdenote a * xdenote b ∧ CanonL3 r := by
+  have hm := multiply_map xfield_opsMap xNtt_transMap threshold a b ha hb
+  rw [h] at hm
+  exact ⟨multiply_spec (algRoot XK) xkNtt_spec threshold _ _ _ hm.symm,
+    multiply_ok xfield_opsMap xNtt_transMap threshold a b r h⟩
+example : multiply TF.xfieldOps 1 xNtt [(1,0,0),(0,1,0)] [(0,0,1),(1,0,0)] = some [(0,0,1),(0,1,0),(0,1,0)] := by
+  decide +kernel
+
+/-- `fast_square` over `XFieldElement` -/
+theorem fast_square_xfield_spec (p r : List X3) (hp : CanonL3 p)
+    (h : fastSquare TF.xfieldOps xNtt p = some r) : xdenote r = xdenote p ^ 2 ∧ CanonL3 r := by
+  have hm := fastSquare_map xfield_opsMap xNtt_transMap p hp
+  rw [h] at hm
+  exact ⟨fast_square_spec (algRoot XK) xkNtt_spec _ _ hm.symm, fastSquare_ok xfield_opsMap xNtt_transMap p r h⟩
+example : fastSquare TF.xfieldOps xNtt [(0,1,0),(0,0,1)]
+    = some [(0,0,1), (18446744069414584319,2,0), (0,18446744069414584320,1)] := by decide +kernel
+
+/-- `square` over `XFieldElement`, every cut-off -/
+theorem square_xfield_spec (cutoff : Nat) (p r : List X3) (hp : CanonL3 p)
+    (h : square TF.xfieldOps cutoff xNtt p = some r) : xdenote r = xdenote p ^ 2 ∧ CanonL3 r := by
+  have hm := square_map xfield_opsMap xNtt_transMap cutoff p hp
+  rw [h] at hm
+  exact ⟨square_spec (algRoot XK) xkNtt_spec cutoff _ _ hm.symm, square_ok xfield_opsMap xNtt_transMap cutoff p r h⟩
+example : square TF.xfieldOps 2 xNtt [(0,1,0),(0,0,1)]
+    = some [(0,0,1), (18446744069414584319,2,0), (0,18446744069414584320,1)] := by decide +kernel
+
+/-- `fast_pow` over `XFieldElement` -/
+theorem fast_pow_xfield_spec (sqCutoff : Nat) (threshold : Int) (p : List X3) (e : Nat) (r : List X3)
+    (hp : CanonL3 p) (h : fastPow TF.xfieldOps sqCutoff threshold xNtt p e = some r) :
+    xdenote r = xdenote p ^ e ∧ CanonL3 r := by
+  obtain ⟨hm, hok⟩ := fastPow_map xfield_opsMap xNtt_transMap sqCutoff threshold p hp e
+  rw [h] at hm
+  exact ⟨fast_pow_spec (algRoot XK) xkNtt_spec sqCutoff threshold _ e _ hm.symm, hok r h⟩
+example : fastPow TF.xfieldOps 0 0 xNtt [(0,1,0),(1,0,0)] 3
+    = some [(18446744069414584320,1,0), (0,0,3), (0,3,0), (1,0,0)] := by decide +kernel
+
+theorem map_xdenote (factors : List (List X3)) :
+    (factors.map (List.map xc)).map denote = factors.map xdenote := by
+  simp [List.map_map, Function.comp_def, xdenote]
+
+/-- `batch_multiply` over `XFieldElement` -/
+theorem batch_multiply_xfield_spec (threshold : Int) (factors : List (List X3)) (r : List X3)
+    (hf : ∀ p ∈ factors, CanonL3 p) (h : batchMultiply TF.xfieldOps threshold xNtt factors = some r) :
+    xdenote r = (factors.map xdenote).prod ∧ CanonL3 r := by
+  obtain ⟨hm, hok⟩ := batchMultiply_map xfield_opsMap xNtt_transMap threshold factors hf
+  rw [h] at hm
+  refine ⟨?_, hok r h⟩
+  rw [xdenote_eq, batch_multiply_spec (algRoot XK) xkNtt_spec threshold _ _ hm.symm, map_xdenote]
+example : batchMultiply TF.xfieldOps 0 xNtt [[(0,1,0),(1,0,0)], [(0,1,0),(1,0,0)], [(0,0,1)]]
+    = some [(0,18446744069414584320,1), (18446744069414584319,2,0), (0,0,1)] := by decide +kernel
+
+/-- `par_batch_multiply` over `XFieldElement`, every thread count -/
+theorem par_batch_multiply_xfield_spec (threshold : Int) (numThreads : Nat) (factors : List (List X3)) (r : List X3)
+    (hf : ∀ p ∈ factors, CanonL3 p) (h : parBatchMultiply TF.xfieldOps threshold xNtt numThreads factors = some r) :
+    xdenote r = (factors.map xdenote).prod ∧ CanonL3 r := by
+  obtain ⟨hm, hok⟩ := parBatchMultiply_map xfield_opsMap xNtt_transMap threshold numThreads factors hf
+  rw [h] at hm
+  refine ⟨?_, hok r h⟩
+  rw [xdenote_eq, par_batch_multiply_spec (algRoot XK) xkNtt_spec threshold numThreads _ _ hm.symm, map_xdenote]
+example : parBatchMultiply TF.xfieldOps 0 xNtt 2 [[(0,1,0),(1,0,0)], [(0,1,0),(1,0,0)], [(0,0,1)]]
+    = some [(0,18446744069414584320,1), (18446744069414584319,2,0), (0,0,1)] := by decide +kernel
+
+/-- no panic for `fast_multiply` / `fast_square` over `XFieldElement` up to transform length `2^31` -/
+theorem fast_multiply_xfield_total (a b : List X3)
+    (h : nextPowerOfTwo ((Model.Poly.degree TF.xfieldOps a + Model.Poly.degree TF.xfieldOps b).toNat + 1) ≤ 2^31) :
+    (fastMultiply TF.xfieldOps xNtt a b).isSome := by
+  obtain ⟨k, hk, hn⟩ := nextPowerOfTwo_le_pow _ 31 h
+  exact fastMultiply_isSome_of _ _ a b (by rw [hn]; exact xNtt_definedAt k hk)
+example : nextPowerOfTwo ((Model.Poly.degree TF.xfieldOps [(1,0,0),(0,1,0)]
+    + Model.Poly.degree TF.xfieldOps [(0,0,1),(1,0,0)]).toNat + 1) ≤ 2^31 := by decide +kernel
+
+theorem fast_square_xfield_total (p : List X3)
+    (h : nextPowerOfTwo (2 * ((Model.Poly.normalize TF.xfieldOps p).length - 1) + 1) ≤ 2^31) :
+    (fastSquare TF.xfieldOps xNtt p).isSome := by
+  obtain ⟨k, hk, hn⟩ := nextPowerOfTwo_le_pow _ 31 h
+  exact fastSquare_isSome_of _ _ p (by rw [hn]; exact xNtt_definedAt k hk)
+example : nextPowerOfTwo (2 * ((Model.Poly.normalize TF.xfieldOps [(0,1,0),(0,0,1)]).length - 1) + 1) ≤ 2^31 := by
+  decide +kernel
+
+end XField
 
 end TF.C07
